@@ -49,7 +49,11 @@ RULE = (
     "sweep harnesses: for each base scenario task.cancel() before every loop iteration j=1..J+1 of the connecting task "
     "(one evaluation = base run + J+1 cancel runs; sweep-aclose: same sweep with client.aclose() started from another task instead "
     "of task.cancel(), oracle: nothing open once aclose() returned); race harnesses: one run with selector reorder/hold and at most one cancel "
-    "at a random iteration or virtual time; oracle = registry of every socket the library created (open set vs returned socket)"
+    "at a random iteration or virtual time; a quarter of the scenarios are 'tail-only': unequal per-family address counts (1+3, 4+1, "
+    "2+4 ...) in three list orders where only the last address of the longer family is reachable and all others fail in finite time; "
+    "oracle = registry of every socket the library created (open set vs returned socket) + order-independent model clauses: all "
+    "attempts failed => socket() was called once per resolved address; some resolved address is scripted reachable (no EMFILE/bind "
+    "faults, nobody cancelled) => the call succeeds unless a 'never' attempt blocks the race under an infinite stagger delay"
 )
 COMPONENTS_REAL = [
     "easynetwork.lowlevel.api_async.backend._common.dns_resolver (staggered race, _create_connection_impl)",
@@ -241,7 +245,7 @@ def _run(world: World, sc: dict, *, cancel_iter: int | None = None, cancel_time:
 
     hed = _hed_value(sc)
     local_address = ("sim.local", 0) if sc["locals"] else None
-    res: dict[str, Any] = {"outcome": None, "exc": None, "J": None, "cancel_sent": False, "hang": False, "cancel_hang": False}
+    res: dict[str, Any] = {"outcome": None, "exc": None, "J": None, "user_cancel": False, "cancel_sent": False, "hang": False, "cancel_hang": False}
     holder: dict[str, Any] = {}
 
     async def connector() -> int:
@@ -295,13 +299,15 @@ def _run(world: World, sc: dict, *, cancel_iter: int | None = None, cancel_time:
                 # the other documented way to abort a pending connect: client.aclose() from another task
                 if not closers and not task.done():
                     closers.append(loop.create_task(holder["client"].aclose(), name="closer"))
-                    res["cancel_sent"] = res["aclose_started"] = True
+                    res["cancel_sent"] = res["aclose_started"] = res["user_cancel"] = True
                     res["aclose_before_hang"] = world.now < t_start + CAP  # not: after the hang timer has fired
                     world.fault(why)
                     world.log("aclose", "closer", label)
                 return
             if task.cancel():
                 res["cancel_sent"] = True
+                if not force_task:
+                    res["user_cancel"] = True
                 world.fault(why)
                 world.log("cancel", "connector", label)
 
@@ -388,7 +394,7 @@ def _describe(sc: dict, res: dict, extra: str) -> str:
         f"{extra} mode={sc['mode']} addrs={sc['addrs']} outcomes={sc['outcomes']} happy_eyeballs_delay={_hed_value(sc)} emfile={sc['emfile']} "
         f"locals={sc['locals']} bind_fail={sc['bind_fail']} | outcome={res['outcome']} exc={type(exc).__name__ if exc is not None else None}"
         f"{[type(e).__name__ + ':' + str(getattr(e, 'errno', '')) for e in _leaves(exc)] if exc is not None else ''} returned_fd={res.get('ret_fd')} "
-        f"open_library_sockets={res.get('open')} established={res.get('established')} attempts_started={res.get('started')} cancel_sent={res['cancel_sent']} hang={res['hang']}"
+        f"open_library_sockets={res.get('open')} established={res.get('established')} attempts_started={res.get('started')} socket_calls={res.get('nsock')} cancel_sent={res['cancel_sent']} hang={res['hang']}"
     )
 
 
@@ -454,7 +460,7 @@ def _check(world: World, sc: dict, res: dict, family: str, extra: str = "") -> N
         if res["established"] and not res["cancel_sent"]:
             raise bad("an-attempt-succeeded-but-no-socket-returned")
     # ---- model-based clauses (independent of the order in which the library races the addresses)
-    if res["cancel_sent"]:
+    if res["user_cancel"]:
         return
     n = len(sc["addrs"])
     if out == "exc" and not res["hang"] and res["nsock"] != n:
